@@ -392,6 +392,27 @@ pub fn run_c11(seed: u64, n: usize, out: &mut Out, exhaustive: Option<i64>) {
             }
         }
     }
+    // 1b. sign forms of the quoted spelling: accepted exactly when `str::parse` accepts the string as it stands
+    for te in &ints {
+        for q in ["++5", "+-5", "-+5", "--5", "+", "-", "+ 5", "+-128", "+0", "-0", "+00", "+-0", "++0", "+5+", "5-"] {
+            emit(out, te, &format!("x = \"{}\"", q));
+        }
+    }
+    // 1c. the value inside one, two and three invisible groups (an `$e:expr` fragment forwarded through
+    //     nested macros): groups are transparent at any depth
+    for te in ints.iter().chain(scalars.iter()) {
+        for src in ["x = 5", "x = \"5\"", "x = 300", "x = true", "x = 'c'", "x = 1.5", "x = \"s\"", "x = 0", "x = foo"] {
+            if let Some(m) = parse_meta(src) {
+                for depth in 1..=3 {
+                    let g = group_value(&m, depth);
+                    let (case, ans) = meta_case(te, &g);
+                    out.stat("grouped_values", 1);
+                    out.case_id("fm", &format!("c11-{}", id.get()), &case, &ans);
+                    id.set(id.get() + 1);
+                }
+            }
+        }
+    }
     // 2. exhaustive small range (thorough) — plain decimal, quoted and unquoted
     if let Some(bound) = exhaustive {
         for te in &ints {
